@@ -39,6 +39,30 @@ logger = logging.getLogger(__name__)
 SHA1 = 20
 
 
+def _inside(dest: str, path: str) -> bool:
+    """
+    Check that path does not leave the destination directory.
+
+    The name and the path elements of a metafile are untrusted input: they
+    may be absolute or contain ``..`` elements.
+
+    Parameters
+    ----------
+    dest : str
+        the destination directory of the rebuild
+    path : str
+        the path a file is about to be copied to
+
+    Returns
+    -------
+    bool
+        True if path is located inside of dest
+    """
+    root = os.path.abspath(dest)
+    target = os.path.abspath(path)
+    return target.startswith(os.path.join(root, ""))
+
+
 class PathNode:
     """
     Base class representing information regarding a file included in torrent.
@@ -177,6 +201,8 @@ class PieceNode:
             val = self._find_matches(filemap, paths[1:], data + partial)
             if val:
                 dest_path = os.path.join(self.dest, pathnode.full)
+                if not _inside(self.dest, dest_path):
+                    return False
                 copypath(loc, dest_path)
                 return val
         return False
@@ -392,6 +418,8 @@ class Metadata(CbMixin, ProgMixin):
                     hasher = HasherV2(path, self.piece_length, True)
                     if entry["root"] == hasher.root:
                         dest_path = os.path.join(dest, entry["full"])
+                        if not _inside(dest, dest_path):
+                            continue
                         copypath(path, dest_path)
                         self._update()
                         self.cb(path, dest_path, self.num_pieces)
